@@ -67,7 +67,7 @@ pub mod tn0 {
       r30(1, 0, 2) <-- r7(1, 0, 2);
       r31(v0, v1, v2) <-- r32(v0, v1, v2), r7(v0, v1, v2);
       r33(v0, v1, v2) <-- r7(v0, v1, v2), r32(v0, v1, v2);
-      r34(v1, v0, v3) <-- r7(v0, v1, v2) if ((*v0) <= 1) let v3 = ((*v1) + 0);
+      r34(v1, v0, v3) <-- r7(v0, v1, v2) if ((*v0) <= 1) let v3 = ((*v1) + 0), if (v3 <= 6);
       r35(((*v5) + 1), ((*v2) + 1)) <-- r6(2, v0) if ((*v0) < 3), r7(3, v1, v2), r15(v3, v4, v5), if ((*v5) < 6), if ((*v2) < 6);
       r36(v1, v3, v1) <-- r7(v0, v1, v2) if ((*v0) < 2), r30(v1, v0, v3);
    }
